@@ -261,6 +261,22 @@ impl DocRec {
     }
 }
 
+/// counterfactual switch for the known defect of `PhrasePrefixScorer` (a gap right before the
+/// prefix term of a phrase with >= 3 kept terms is ignored: the prefix term is expected directly
+/// after the last phrase term): when set, `matches_on` evaluates prefix phrases that way
+pub static PREFIX_GAP_DEFECT: std::sync::atomic::AtomicBool = std::sync::atomic::AtomicBool::new(false);
+
+/// does the query contain a prefix phrase with >= 3 kept terms and dropped tokens right before the last one
+pub fn has_prefix_gap_leaf(g: &Gen) -> bool {
+    g.leaves.iter().any(|l| match l {
+        LeafSpec::Phrase { field: Some(f), words, prefix: true, .. } => {
+            let q = kept_positions(*f, words);
+            q.len() >= 3 && q[q.len() - 1].0 != q[q.len() - 2].0 + 1
+        }
+        _ => false,
+    })
+}
+
 /// what the field's analyzer keeps of a word sequence: (position, lower-cased token)
 pub fn kept_positions(f: usize, words: &[String]) -> Vec<(i64, String)> {
     words
@@ -309,9 +325,13 @@ impl LeafSpec {
                 let has = |p: i64, w: &str, as_prefix: bool| toks.iter().any(|(tp, tw)| *tp == p && if as_prefix { tw.starts_with(w) } else { tw == w });
                 if *slop == 0 || *prefix {
                     let n = q.len();
+                    let defect = *prefix && n >= 3 && PREFIX_GAP_DEFECT.load(std::sync::atomic::Ordering::Relaxed);
                     toks.iter().any(|(p0, w0)| {
                         (if n == 1 && *prefix { w0.starts_with(q[0].1.as_str()) } else { *w0 == q[0].1 })
-                            && (1..n).all(|k| has(p0 + q[k].0 - q[0].0, &q[k].1, *prefix && k == n - 1))
+                            && (1..n).all(|k| {
+                                let off = if defect && k == n - 1 { q[n - 2].0 + 1 } else { q[k].0 };
+                                has(p0 + off - q[0].0, &q[k].1, *prefix && k == n - 1)
+                            })
                     })
                 } else {
                     // two kept words only (generator invariant): |pos(a) + (off_b - off_a) - pos(b)| <= slop
